@@ -420,7 +420,7 @@ def main(ck):
         nk = np.array(ck_['frame'][:3])
         pk = np.array(ck_['pos'])
         dk = float(ck_['dist'])
-        if dk < -DEEP * smin or (touching and is_ccd) or (pair == ('box', 'box') and sat > 0):
+        if dk < -DEEP * smin or (touching and is_ccd) or (pair == ('box', 'box') and sat > 0) or f5:
           continue
         e1 = gr.sdf(S[int(ck_['geom'][0])], pk - nk * dk / 2)
         e2 = gr.sdf(S[int(ck_['geom'][1])], pk + nk * dk / 2)
@@ -431,7 +431,7 @@ def main(ck):
           tolk = tdist
           calib['between'] = max(calib['between'], max(e1, e2) / sc)
         elif k == kmin:
-          tolk = 4 * tdist + 1e-2 * (abs(dk) + M + G)   # normal only ~1e-2 rad accurate (see above): 2nd order in it,
+          tolk = 4 * tdist + 3e-2 * (abs(dk) + M + G)   # normal only ~1e-2 rad accurate (see above): 2nd order in it,
                                                       # lever arm = distance between the inflated witness points
         else:
           tolk = tdist + 4e-3 * sc              # multiccd secondary points come from +-1e-3 rad perturbed poses
